@@ -77,6 +77,8 @@ ObsInit(cfg) ==
     xw     |-> {},                                 \* external waiters
     stopped|-> {},                                 \* buses for which stop() was called (begin)
     stopT  |-> [b \in BusNames(cfg) |-> -1],       \* time stop() returned
+    stopAcc|-> [b \in BusNames(cfg) |-> 0],        \* number of events accepted on b when stop() / cancellation began
+    restart|-> {},                                 \* buses used again (dispatch, wait_until_idle) after stop() began
     crl    |-> {},                                 \* buses whose background task was cancelled
     exps   |-> {},                                 \* pending / finished expect calls
     now    |-> 0,
@@ -198,8 +200,8 @@ StepDisp(cfg, o, ln) ==
       o1 == [o EXCEPT !.n = IF new THEN e ELSE @,
                       !.gpar = IF new THEN Append(@, IF ok THEN gp ELSE 0) ELSE @,
                       !.xpar = IF new THEN Append(@, IF ln.xp THEN ln.xpe ELSE 0) ELSE @,
-                      !.ety = IF new THEN Append(@, ln.ty) ELSE @,
                       !.acc = IF ok THEN [@ EXCEPT ![b] = Append(@, e)] ELSE @,
+                      !.restart = IF b \in o.stopped THEN @ \cup {b} ELSE @,
                       !.disp = Append(@, [b |-> b, e |-> e, out |-> ln.out, act |-> ln.act, drv |-> ln.drv, fw |-> ln.fw, xp |-> ln.xp, t |-> ln.t])]
       s == o.snap[e]
       w9 ==
@@ -246,7 +248,7 @@ StepEnter(cfg, o, ln) ==
       jump == \E y \in o.open : y.aw # 0 /\ ln.e \in Sub(o, y.aw)
       pos == IF InSeq(ln.e, o.acc[ln.b]) THEN FirstIdx(o.acc[ln.b], ln.e) ELSE 0
       earlier == IF pos = 0 THEN {} ELSE {o.acc[ln.b][i] : i \in 1..(pos - 1)}
-      w2a == IF first /\ ~jump
+      w2a == IF first /\ ~jump /\ ln.b \notin o.stopped
              THEN {W("C02.fifo", ln.e, ln.b, ln.h, ln.act, ln.byk) : e2 \in
                      {z \in earlier : z # ln.e /\ ~InSeq(z, o.started[ln.b]) /\ Puppets(cfg, ln.b, o.ety[z]) # {}
                                       /\ ~\E i \in DOMAIN o.snap[z].res : o.snap[z].res[i].b = ln.b /\ o.snap[z].res[i].err = "Cancelled:pending"}}
@@ -264,7 +266,8 @@ StepEnter(cfg, o, ln) ==
       \* C09: event.event_bus inside a handler is the bus running it
       w9 == IF ln.rb # ln.b THEN {W("C09.event_bus", ln.e, ln.b, ln.h, ln.act, IF Len(o.snap[ln.e].path) > 1 /\ ln.rb = Last(o.snap[ln.e].path) THEN "lastpath" ELSE ln.rb)} ELSE {}
       \* C16: no handler of a stopped bus starts after stop() returned
-      w16 == IF o.stopT[ln.b] >= 0 THEN {W("C16.start_after_stop", ln.e, ln.b, ln.h, ln.act, ln.byk)} ELSE {}
+      w16 == IF o.stopT[ln.b] >= 0 /\ pos # 0 /\ pos <= o.stopAcc[ln.b]
+             THEN {W("C16.start_after_stop", ln.e, ln.b, ln.h, ln.act, IF ln.byk = "rl" /\ ln.b \in o.restart THEN "rl_restart" ELSE ln.byk)} ELSE {}
       o2 == Bump(IF o.open # {} THEN Bump(o1, "nested_enter") ELSE o1, "enter")
   IN AddW(o2, w1 \cup w2a \cup w2b \cup w2n \cup w5 \cup w6 \cup w9 \cup w16)
 
@@ -303,6 +306,7 @@ StepAwE(cfg, o, ln) ==
            w == IF ln.canc THEN {}
                 ELSE (IF ~ln.same THEN {W("C04.identity", ln.e, x.b, x.h, x.act, "")} ELSE {})
                   \cup {W("C04.incomplete", d, x.b, x.h, x.act,
+                          IF d <= Len(o.fc) /\ o.fc[d] # <<>> THEN "regressed" ELSE
                           IF \E b \in DOMAIN o.q : InSeq(d, o.q[b]) THEN "queued" ELSE
                           IF ~\E b \in DOMAIN o.acc : InSeq(d, o.acc[b]) THEN "never_accepted" ELSE "held") : d \in nd}
                   \cup LateW(o, ln.act, ln.t, "await_return")
@@ -316,7 +320,7 @@ StepXAwE(cfg, o, ln) ==
   LET o1 == Bump([o EXCEPT !.xw = {x \in @ : ~(x.k = "a" /\ x.d = ln.d)}], "xawE")
       w == (IF ~ln.same THEN {W("C03.identity", ln.e, "", "", 0, "")} ELSE {})
         \cup (IF ln.exc # "" THEN {W("C03.raised", ln.e, "", "", 0, ln.exc)} ELSE {})
-        \cup {W("C03.incomplete", d, "", "", ln.e, "") : d \in NotDone(o, ln.e)}
+        \cup {W("C03.incomplete", d, "", "", ln.e, IF d <= Len(o.fc) /\ o.fc[d] # <<>> THEN "regressed" ELSE "") : d \in NotDone(o, ln.e)}
   IN AddW(o1, w)
 
 \* events accepted on b whose processing there has not finished: queued, or having a handler of b that is not terminal,
@@ -326,7 +330,7 @@ FinishedOn(cfg, o, b, e) ==
   /\ \A i \in DOMAIN o.snap[e].res : o.snap[e].res[i].b = b => Terminal(o.snap[e].res[i].st)
   /\ \A h \in Puppets(cfg, b, o.ety[e]) : <<b, e, h.id>> \in o.runs \/ \E i \in ResOf(o.snap[e], h.id, b) : Terminal(o.snap[e].res[i].st)
 StepIdleB(cfg, o, ln) ==
-  [o EXCEPT !.xw = @ \cup {[k |-> "idle", d |-> ln.d, e |-> 0, b |-> ln.b, t0 |-> ln.t, tmo |-> ln.tmo, before |-> Range(o.acc[ln.b])]}]
+  [o EXCEPT !.restart = IF ln.b \in o.stopped THEN @ \cup {ln.b} ELSE @, !.xw = @ \cup {[k |-> "idle", d |-> ln.d, e |-> 0, b |-> ln.b, t0 |-> ln.t, tmo |-> ln.tmo, before |-> Range(o.acc[ln.b])]}]
 StepIdleE(cfg, o, ln) ==
   LET X == {x \in o.xw : x.k = "idle" /\ x.d = ln.d}
       x == CHOOSE y \in X : TRUE
@@ -342,7 +346,8 @@ StepIdleE(cfg, o, ln) ==
 
 StepStopB(cfg, o, ln) ==
   [o EXCEPT !.xw = @ \cup {[k |-> "stop", d |-> ln.d, e |-> 0, b |-> ln.b, t0 |-> ln.t, tmo |-> ln.tmo, before |-> {}]},
-            !.stopped = @ \cup {ln.b}]
+            !.stopped = @ \cup {ln.b},
+            !.stopAcc[ln.b] = IF ln.b \in o.stopped THEN @ ELSE Len(o.acc[ln.b])]
 StepStopE(cfg, o, ln) ==
   LET X == {x \in o.xw : x.k = "stop" /\ x.d = ln.d}
       x == CHOOSE y \in X : TRUE
@@ -353,7 +358,8 @@ StepStopE(cfg, o, ln) ==
              \cup (IF ln.exc # "" THEN {W("C16.raised", 0, ln.b, "", 0, ln.exc)} ELSE {})
   IN AddW(o1, w)
 
-StepCancelRL(cfg, o, ln) == [o EXCEPT !.crl = @ \cup {ln.b}, !.stopped = @ \cup {ln.b}]
+StepCancelRL(cfg, o, ln) == [o EXCEPT !.crl = @ \cup {ln.b}, !.stopped = @ \cup {ln.b},
+                                      !.stopAcc[ln.b] = IF ln.b \in o.stopped THEN @ ELSE Len(o.acc[ln.b])]
 
 \* ------------------------------------------------------------------------
 \* expect (C18)
@@ -415,7 +421,7 @@ StepEnd(cfg, o, ln) ==
       live == {b \in BusNames(cfg) : b \notin o.stopped}
       TT == TimeoutTouched(o)
       \* ---- C07 termination
-      w7t == IF aborted THEN {W("C07.no_quiescence", 0, "", "", 0, ln.abort)} ELSE {}
+      w7t == IF aborted THEN {W("Q.no_quiescence", 0, "", "", 0, ln.abort)} ELSE {}
       \* ---- liveness: blocked waiters
       wl == {W(CASE x.k = "a" -> "C03.hang" [] x.k = "idle" -> "C15.hang" [] x.k = "stop" -> "C16.hang" [] OTHER -> "C18.hang",
                x.e, x.b, "", x.d, "") : x \in {y \in o.xw : \E z \in blockedOps : z[1] = y.d}}
@@ -431,7 +437,7 @@ StepEnd(cfg, o, ln) ==
                 : p \in {pp \in live \X (1..o.n) : InSeq(pp[2], o.acc[pp[1]]) /\ pp \notin o.procB}}
       \* ---- completion at quiescence (C03 converse / C10 / C11)
       wq == {W(IF e \in TT THEN "C10.incomplete" ELSE "C03.not_completed", e, "", "", 0, o.snap[e].st)
-               : e \in {z \in AcceptedAnywhere(o) : ~Done(o, z) /\ \A b \in DOMAIN o.acc : InSeq(z, o.acc[b]) => b \in live}}
+               : e \in {z \in AcceptedAnywhere(o) : ~Done(o, z) /\ \A d \in Sub(o, z) : \A b \in DOMAIN o.acc : InSeq(d, o.acc[b]) => b \in live}}
       \* ---- C10: results of timed-out / interrupted handlers
       w10 == {W("C10.result", r.e, r.b, r.h, r.act, "")
                 : r \in {z \in o.racts : z.out = "cancel" /\ z.dl >= 0 /\ z.t1 = z.dl /\ ~z.encdl /\
